@@ -250,9 +250,10 @@ FirstKeys(h, t, seen) ==
 FirstInsertionOrderOf(p) == \A t \in TableSet : Keys(p.tbl[t]) = FirstKeys(p.log, t, {})
 NoDuplicateKeysOf(p) == \A t \in TableSet : \A n, m \in DOMAIN p.tbl[t] : p.tbl[t][n].key = p.tbl[t][m].key => n = m
 \* each keyed definition holds its last value (C08 "replaces the earlier one", C09 "keeps only its last value")
+Defined(h, t, key) == \E m \in DOMAIN h : h[m].k = t /\ h[m].key = key
 LastOf(h, t, key) == h[Max({m \in DOMAIN h : h[m].k = t /\ h[m].key = key})]
-LastValueWinsOf(p) == \A t \in TableSet : \A n \in DOMAIN p.tbl[t] :
-                         p.tbl[t][n].id = LastOf(p.log, t, p.tbl[t][n].key).id
+IsLastOf(i, h, t) == Defined(h, t, i.key) /\ i.id = LastOf(h, t, i.key).id     \* total: FALSE for a key never defined
+LastValueWinsOf(p) == \A t \in TableSet : \A n \in DOMAIN p.tbl[t] : IsLastOf(p.tbl[t][n], p.log, t)
 \* the listing is the eight tables in the documented order, then the body; every entry sits in its own table
 SegmentedOf(p) == /\ \A t \in TableSet : \A n \in DOMAIN p.tbl[t] : p.tbl[t][n].k = t
                   /\ \A n \in DOMAIN p.body : IsBody(p.body[n])
@@ -263,12 +264,12 @@ HashIndependentOf(p) == \A h \in HashSeeds : ListingH(p, h) = Listing(p)
 TableOf(L, t) == SelectSeq(L, LAMBDA i : i.k = t)
 ListingOrderLaw(L, log) == \A t \in TableSet : LET T == TableOf(L, t) IN
                               /\ Keys(T) = FirstKeys(log, t, {})
-                              /\ \A n \in DOMAIN T : T[n].id = LastOf(log, t, T[n].key).id
+                              /\ \A n \in DOMAIN T : IsLastOf(T[n], log, t)
 ListingBodyLaw(L, log) == Ids(SelectSeq(L, IsBody)) = Ids(SelectSeq(log, IsBody))
 ListingLastValueLaw(L, log) == \A t \in TableSet : LET T == TableOf(L, t) IN
                               /\ Range(Keys(T)) = {log[m].key : m \in {x \in DOMAIN log : log[x].k = t}}
                               /\ Len(T) = Cardinality(Range(Keys(T)))
-                              /\ \A n \in DOMAIN T : T[n].id = LastOf(log, t, T[n].key).id
+                              /\ \A n \in DOMAIN T : IsLastOf(T[n], log, t)
 \* a program value laid out from a listing as it stands (no Upsert: duplicates stay visible)
 ProgOfListing(L, used) == [tbl |-> [t \in TableSet |-> TableOf(L, t)], body |-> SelectSeq(L, IsBody),
                            used |-> used, log |-> L, excl |-> {}, opaque |-> FALSE]
@@ -289,16 +290,22 @@ EqSoundOf(a, b) == EqProg(a, b) => Range(Ids(Listing(a))) = Range(Ids(Listing(b)
 
 \* --- C11: the concatenation law for operands a, b and result c
 Lookup(tb, key) == tb[Pos(tb, key)]
-ConcatContentLawOf(a, b, c) ==
+\* body appended; every definition kept once; a key defined in both takes B's value      (C11)
+ConcatKeyValueLawOf(a, b, c) ==
   /\ c.body = a.body \o b.body
   /\ \A t \in TableSet :
        LET ka == Keys(a.tbl[t])  kb == Keys(b.tbl[t])  kc == Keys(c.tbl[t]) IN
-       /\ Range(kc) = Range(ka) \cup Range(kb)                         \* every definition is kept ...
-       /\ Len(kc) = Cardinality(Range(kc))                             \* ... once
-       /\ \A n \in DOMAIN kc :                                         \* keyed in both: B's value
+       /\ Range(kc) = Range(ka) \cup Range(kb)
+       /\ Len(kc) = Cardinality(Range(kc))
+       /\ \A n \in DOMAIN kc :
             c.tbl[t][n] = IF kc[n] \in Range(kb) THEN Lookup(b.tbl[t], kc[n]) ELSE Lookup(a.tbl[t], kc[n])
-       /\ SelectSeq(kc, LAMBDA k : k \in Range(ka)) = ka               \* A's definitions keep their places,
-       /\ SelectSeq(kc, LAMBDA k : k \notin Range(ka)) = SelectSeq(kb, LAMBDA k : k \notin Range(ka))  \* B's new ones follow
+\* A's definitions keep their places, B's new ones follow in B's order     (C08 "including via concatenation")
+ConcatOrderLawOf(a, b, c) ==
+  \A t \in TableSet :
+       LET ka == Keys(a.tbl[t])  kb == Keys(b.tbl[t])  kc == Keys(c.tbl[t]) IN
+       /\ SelectSeq(kc, LAMBDA k : k \in Range(ka)) = ka
+       /\ SelectSeq(kc, LAMBDA k : k \notin Range(ka)) = SelectSeq(kb, LAMBDA k : k \notin Range(ka))
+ConcatContentLawOf(a, b, c) == ConcatKeyValueLawOf(a, b, c) /\ ConcatOrderLawOf(a, b, c)
 ConcatUsedLawOf(a, b, c) == c.used = a.used \cup b.used
 ConcatLawOf(a, b, c) == ConcatContentLawOf(a, b, c) /\ ConcatUsedLawOf(a, b, c)
 SameContent(a, b) == /\ Ids(Listing(a)) = Ids(Listing(b)) /\ a.used = b.used /\ EqProg(a, b)
